@@ -621,3 +621,10 @@ add("missing-lipschitz-constant-guard-inverted", F, ["C07"], "dfols/solver.py", 
     "        elif lh is not None:\n            exit_info = ExitInformation(EXIT_INPUT_ERROR, \"Must provide lh input if h is not None\")", "inverted-guard")
 # C20-2c (recorded finding F20d): the repaired form must be silent
 add("s-non-finite-floats-replaced", S, ["C20"], "dfols/util.py", "    elif isinstance(d, float) and math.isnan(d):\n", "    elif isinstance(d, float) and not math.isfinite(d):\n")
+# robustness of C07-21 / C07-22 to two common spellings
+add("s-format-arguments-in-a-local-tuple", S, ["C07"], "dfols/controller.py",
+    "            module_logger.info(\"Soft restart [currently, f = %g after %g function evals]\" % (self.model.objopt(), self.nf))",
+    "            log_args = (self.model.objopt(), self.nf)\n            module_logger.info(\"Soft restart [currently, f = %g after %g function evals]\" % log_args)")
+add_multi("s-counters-initialised-by-a-helper-of-the-constructor", S, ["C07", "C10"], [
+    ("dfols/controller.py", "        self.last_successful_run = 0\n", "        self._reset_run_counters()\n"),
+    ("dfols/controller.py", "    def initialise_coordinate_directions(", "    def _reset_run_counters(self):\n        self.last_successful_run = 0\n\n    def initialise_coordinate_directions(")])
